@@ -129,6 +129,8 @@ def rule_handwritten(prog, res):
         bufs = []
         for i, ty in enumerate(f.locals):
             s = ty_str(ty)
+            if ty.get("k") in ("ref", "ptr", "rawptr"):
+                continue            # a borrow of self's own vector is not a buffer
             if ("ArrayString" in s or "ArrayVec" in s or ty.get("k") == "array") and i != 0 and "Df88591String" not in s.split("<")[0]:
                 if "Df88591String" in s and "ArrayString" not in s:
                     continue
@@ -145,14 +147,64 @@ def rule_handwritten(prog, res):
         if streams:
             # the Display adaptor writes every char
             g = next((h for p, h in prog.fns.items() if "Df88591String<N>" in p and "::serialize::" in p and p.endswith("core::fmt::Display>::fmt")), None)
+            whole = True
+            if g is None:
+                # the adaptor is a named type: the type argument of collect_str::<T>, with its Display impl
+                for b, t in f.calls():
+                    if (callee_of(t) or "").endswith("Serializer::collect_str"):
+                        tys = [a for a in (t.get("cargs") or []) if a.get("k") == "adt"]
+                        if tys:
+                            g = prog.fn("<%s as core::fmt::Display>::fmt" % tys[-1]["path"])
+                        # what the adaptor is built from: all of self's bytes (the vector field, dereferenced, not sub-sliced)
+                        a1 = fa.call_args(b)[1]
+                        x = a1
+                        while x.op in ("ref", "mem", "memval"):
+                            x = x.args[0]
+                        if x.op == "loc":
+                            x = fa.val(x.args[1], (b, 10 ** 6))
+                        whole = False
+                        if x.op == "agg" and len(x.args[3]) == 1:
+                            y = x.args[3][0]
+                            while y.op in ("ref", "mem", "memval"):
+                                y = y.args[0]
+                            if y.op == "call" and y.args[0].endswith("ArrayVec<A> as core::ops::Deref>::deref") and len(y.args[1]) == 1:
+                                y = y.args[1][0]
+                                while y.op in ("ref", "mem", "memval"):
+                                    y = y.args[0]
+                            whole = y.op == "pf" and y.args[1] == 0 and y.args[0].op in ("mem", "arg")
             ok = False
             if g is not None:
                 res.fn(g)
                 gc = [callee_of(t) for b, t in g.calls()]
-                ok = any(c and c.endswith("Df88591String::<N>::chars") for c in gc) and any(c and c.endswith("write_char") for c in gc) \
-                    and len(g.loops()) == 1
+                by_chars = any(c and c.endswith("Df88591String::<N>::chars") for c in gc)
+                # or: every byte of the adaptor's slice, mapped through to_char (what chars() yields)
+                ga = FA(g, prog)
+                by_bytes = False
+                for b, t in g.calls():
+                    if (callee_of(t) or "").endswith("write_char"):
+                        ch = ga.call_args(b)[1]
+                        if ch.op == "call" and ch.args[0].endswith("Df88591StringChars::to_char") and "Iterator>::next" in show(ch.args[1][0], ga.names):
+                            its = [ga.call_args(b2)[0] for b2, t2 in g.calls() if callee_of(t2) == "core::slice::<impl [T]>::iter"]
+                            nx = [(b2, callee_of(t2)) for b2, t2 in g.calls() if (callee_of(t2) or "").endswith("::next")]
+                            direct = False
+                            if len(nx) == 1 and nx[0][1] == "<core::slice::Iter<'a, T> as core::iter::Iterator>::next":
+                                r = ga.call_args(nx[0][0])[0]
+                                while r.op in ("ref", "mem", "memval"):
+                                    r = r.args[0]
+                                if r.op == "loc":
+                                    ds = [d for d in ga.defs(r.args[1]) if d[2] != "borrow"]
+                                    if len(ds) == 1:
+                                        v = ga.defterm(r.args[1], ds[0][0], ds[0][1], ds[0][2])
+                                        # (into_iter is the identity on iterators)
+                                        while v.op == "call" and v.args[0].endswith("::into_iter"):
+                                            v = v.args[1][0]
+                                        direct = v.op == "call" and v.args[0] == "core::slice::<impl [T]>::iter"
+                            by_bytes = direct and len(its) == 1 and "self.0" in show(its[0], ga.names) and "index" not in show(its[0], ga.names)
+                ok = (by_chars or by_bytes) and whole and any(c and c.endswith("write_char") for c in gc) and len(g.loops()) == 1
                 # write errors are propagated (Try::branch) - a break on anything else would truncate
-                ok = ok and any(c and c.endswith("Try>::branch") for c in gc)
+                # (a try_for_each over the bytes whose closure returns write_char's result is that propagation, desugared by inline.py)
+                tfe = any(x.endswith("try_for_each") for x in (getattr(prog, "inlined", {}) or {}).get(g.path, []))
+                ok = ok and (any(c and c.endswith("Try>::branch") for c in gc) or tfe)
             res.ob("Z-buf", "Df88591String::serialize | the adaptor writes chars() one by one, stopping only on a formatter error", ok, "", (g or f).loc)
     # ---- ArrayString: serialize_str(&*self)
     f = next((g for p, g in prog.fns.items() if re.fullmatch(r"<util::array_string::ArrayString<N> as .*::Serialize>::serialize", p)), None)
